@@ -101,19 +101,23 @@ def raw_tables(draw, profile='small', min_n=1, min_m=1):
     """(family, n, m, rows) before labelling."""
     max_n, max_m = PROFILES[profile] if isinstance(profile, str) else profile
     family = draw(st.sampled_from(['bernoulli', 'bernoulli', 'bernoulli', 'scale', 'apposition', 'anyint']))
+    def dim(lo, hi):
+        # one- and two-line tables stay possible but do not dominate (Hypothesis favours small integers)
+        pool = [d for d in range(lo, hi + 1) for _ in range(1 if d < 3 else 3)]
+        return draw(st.sampled_from(pool))
     if family == 'bernoulli':
-        n = draw(st.integers(min_n, max_n))
-        m = draw(st.integers(min_m, max_m))
-        density = draw(st.integers(0, 4))
+        n = dim(min_n, max_n)
+        m = dim(min_m, max_m)
+        density = draw(st.sampled_from([0, 1, 1, 2, 2, 2, 3, 3, 4]))
         rows = [draw(_density_int(m, density)) for _ in range(n)]
     elif family == 'anyint':
-        n = draw(st.integers(min_n, max_n))
-        m = draw(st.integers(min_m, max_m))
+        n = dim(min_n, max_n)
+        m = dim(min_m, max_m)
         rows = draw(st.lists(st.integers(0, (1 << m) - 1), min_size=n, max_size=n))
     else:
         def one_scale():
             name = draw(st.sampled_from(sorted(SCALES)))
-            k = draw(st.integers(max(1, min_n), max(1, min(max_n, max_m))))
+            k = dim(max(1, min_n), max(1, min(max_n, max_m)))
             m, rows = SCALES[name](k)
             if m > max_m:  # interordinal/dichotomic may be wide: clip objects
                 k = max(1, max_m // 2)
